@@ -29,7 +29,8 @@ REQUIRED_ORACLES = ['H1', 'H2', 'H3', 'H3e', 'H4', 'H5', 'H6', 'H7', 'RT']
 REQUIRED_CLASSES = ['cls:Reaction', 'cls:ChemkinReaction', 'cls:SurfaceReaction', 'flavor:statmech',
                     'flavor:mixed', 'flavor:empirical', 'ts:0', 'ts:1', 'ts:2', 'block', 'block:falsy_override', 'fractional',
                     'twin:same_name_other_object', 'twin:block_addressed', 'E_act:del_m=0', 'E_act:del_m=None',
-                    'E_act:del_m=0:molecularity_changes']
+                    'E_act:del_m=0:molecularity_changes', 'block:before_shared_condition', 'keq:edge_window', 'keq:edge_window:>700',
+                    'bep_ts', 'bep_ts:block', 'bep_ts:entropy_state=products', 'bep_ts:entropy_state=None']
 REQUIRED_PROBES = ['Reaction.get_state_quantity', 'Reaction.get_delta_quantity', '_get_specie_kwargs',
                    '_force_pass_arguments', '_get_states']
 ASSUMPTIONS = ['ChemkinReaction / SurfaceReaction are driven with empirical species only (they require a phase) '
@@ -46,8 +47,32 @@ def directed(tier):
 
 
 def generate(rng, tier):
+    if rng.random() < 0.06:
+        return _gen_bep_ts(rng)
     spec = RG.gen_reaction(rng, twins=True)
     spec['cond'] = RG.gen_conditions(rng, spec)
+    if rng.random() < 0.3:
+        # keyword order is the caller's business: blocks may come before the shared conditions
+        items = list(spec['cond'].items())
+        rng.shuffle(items)
+        spec['cond'] = dict(items)
+        spec['cond_order'] = 'shuffled'
+    spec['keq_edge'] = rng.random() < 0.25
+    return spec
+
+
+def _gen_bep_ts(rng):
+    """a Reaction whose transition state is a Bronsted-Evans-Polanyi object, with a block addressed to it"""
+    spec = RG.gen_reaction(rng, flavor='empirical', cls='Reaction', ts=True, n_ts=1)
+    for nm, _ in spec['ts']:
+        spec['species'].pop(nm, None)
+    spec['ts'] = [['@bep', 1]]
+    spec['bep'] = {'slope': round(rng.uniform(0, 1), 3), 'intercept': round(rng.uniform(0, 40), 3),
+                   'descriptor': rng.choice(['delta_H', 'rev_delta_H']), 'name': rng.choice(['OH_bep', 'bep1', 'TS_CH'])}
+    spec['cond'] = RG.gen_conditions(rng, spec, with_blocks=False)
+    spec['bep_block'] = rng.choice([{'entropy_state': 'products'}, {'entropy_state': 'reactants'},
+                                    {'entropy_state': None}, None])
+    spec['kind'] = 'bep_ts'
     return spec
 
 
@@ -95,7 +120,74 @@ def _f(x):
     return float(np.squeeze(x))
 
 
+def _bep_ts(spec, ctx):
+    """H1 / H3 / H7 with a BEP transition state: TS enthalpy = H(reactants) + Ea with Ea = adjusted slope x
+    descriptor + intercept (kcal/mol), TS entropy = S(entropy_state) (default reactants, None -> 0); the block
+    addressed to the BEP reaches the BEP only and the caller's (nested) dictionaries stay as they were"""
+    from pmutt.reaction import Reaction
+    from pmutt.reaction.bep import BEP
+    from pmutt import constants as c
+    from vf.gen import species as S
+    objs = {n: S.build(sp) for n, sp in spec['species'].items()}
+    b = spec['bep']
+    bep = BEP(slope=b['slope'], intercept=b['intercept'], descriptor=b['descriptor'], name=b['name'])
+    rxn = Reaction(reactants=[objs[n] for n, _ in spec['reactants']], reactants_stoich=[v for _, v in spec['reactants']],
+                   products=[objs[n] for n, _ in spec['products']], products_stoich=[v for _, v in spec['products']],
+                   transition_state=[bep], transition_state_stoich=[1])
+    cond = dict(spec['cond'])
+    block = spec.get('bep_block')
+    if block is not None:
+        cond['%s_kwargs' % b['name']] = dict(block)
+        ctx.cls('bep_ts:block')
+    ctx.cls('bep_ts', 'bep_ts:entropy_state=%s' % (block or {}).get('entropy_state', 'default'))
+    ctx.nontrivial()
+    snapshot = copy.deepcopy(cond)
+    T = cond['T']
+    base = {'cls': 'Reaction', 'ts': 'BEP'}
+    try:
+        ref = {q: {st: RG.state_sum(objs, spec[st], 'get_' + q, cond) for st in ('reactants', 'products')}
+               for q in ('HoRT', 'SoR')}
+    except Exception as e:
+        ctx.inconc('H1', 'species getter raised', exc=repr(e)[:200])
+        return
+    Rk = c.R('kcal/mol/K')
+    hr, hp = ref['HoRT']['reactants'][0], ref['HoRT']['products'][0]
+    dH = (hp - hr) * Rk * T
+    ea = b['slope'] * dH + b['intercept'] if b['descriptor'] == 'delta_H' else (b['slope'] - 1.0) * (-dH) + b['intercept']
+    es = (block or {}).get('entropy_state', 'reactants')
+    ts = {'HoRT': hr + ea / (Rk * T), 'SoR': 0.0 if es is None else ref['SoR'][es][0]}
+    ts['GoRT'] = ts['HoRT'] - ts['SoR']
+    state = {q: {'reactants': ref[q]['reactants'][0], 'products': ref[q]['products'][0], 'ts': ts[q]} for q in ('HoRT', 'SoR')}
+    state['GoRT'] = {st: state['HoRT'][st] - state['SoR'][st] for st in ('reactants', 'products', 'ts')}
+    mag = max(1.0, ref['HoRT']['reactants'][1], ref['HoRT']['products'][1], ref['SoR']['reactants'][1],
+              ref['SoR']['products'][1], abs(ea / (Rk * T)))
+    for q in ('HoRT', 'SoR', 'GoRT'):
+        got = {}
+        for rev in (False, True):
+            ini = 'products' if rev else 'reactants'
+            mm = dict(base, q=q, form='delta', rev=rev, act=True)
+            g = ctx.call('H1', mm, getattr(rxn, 'get_delta_' + q), rev=rev, act=True, **cond)
+            if g is core.NOVALUE:
+                continue
+            got[rev] = _f(g)
+            ctx.close('H1', got[rev], state[q]['ts'] - state[q][ini], 1e-10, mm, scale=mag)
+        if len(got) == 2:
+            ctx.close('H3', got[False] - got[True], state[q]['products'] - state[q]['reactants'], 1e-10,
+                      dict(base, q=q, form='delta', what='fwd-rev'), scale=mag)
+        g = ctx.call('H1', dict(base, q=q, form='state'), getattr(rxn, 'get_%s_state' % q), state='ts', **cond)
+        if g is not core.NOVALUE:
+            ctx.close('H1', _f(g), state[q]['ts'], 1e-10, dict(base, q=q, form='state'), scale=mag)
+    ka = ctx.call('H5', dict(base, what='Keq_act'), rxn.get_Keq, act=True, **cond)
+    dGa = state['GoRT']['ts'] - state['GoRT']['reactants']
+    if ka is not core.NOVALUE and abs(dGa) < 700 and _f(ka) > 0:
+        ctx.close('H5', math.log(_f(ka)), -dGa, 1e-9, dict(base, what='Keq_act'), scale=max(1.0, abs(dGa), mag))
+    ctx.check('H7', cond == snapshot, dict(base, what='conditions_mutated'), before=repr(snapshot)[:300],
+              after=repr(cond)[:300])
+
+
 def run_case(spec, ctx):
+    if spec.get('kind') == 'bep_ts':
+        return _bep_ts(spec, ctx)
     rxn, objs = RG.build_reaction(spec)
     cond = spec['cond']
     cls, flavor = spec['cls'], spec['flavor']
@@ -105,6 +197,9 @@ def run_case(spec, ctx):
     frac = any(v != int(v) for _, v in spec['reactants'] + spec['products'] + (spec['ts'] or []))
     if has_block:
         ctx.cls('block')
+    if spec.get('cond_order') == 'shuffled' and has_block and \
+            list(cond).index([k for k in cond if k.endswith('_kwargs')][0]) < len(cond) - 1:
+        ctx.cls('block:before_shared_condition')
     if spec.get('twin'):
         ctx.cls('twin:same_name_other_object')
         if '%s_kwargs' % RG.shown(spec['twin']) in cond:
@@ -248,7 +343,7 @@ def run_case(spec, ctx):
         g = ctx.call('H5', dict(base, what='delta_GoRT'), rxn.get_delta_GoRT, rev=rev, **cond)
         if g is not core.NOVALUE:
             dG[rev] = _f(g)
-    if len(dG) == 2 and abs(dG[False]) < 600:
+    if len(dG) == 2 and abs(dG[False]) < 705:
         K = {}
         for rev in (False, True):
             k = ctx.call('H5', dict(base, what='Keq', rev=rev), rxn.get_Keq, rev=rev, **cond)
@@ -262,10 +357,44 @@ def run_case(spec, ctx):
         if nts:
             ka = ctx.call('H5', dict(base, what='Keq_act'), rxn.get_Keq, act=True, **cond)
             ga = ctx.call('H5', dict(base, what='Keq_act'), rxn.get_delta_GoRT, act=True, **cond)
-            if core.NOVALUE not in (ka, ga) and abs(_f(ga)) < 600:
+            if core.NOVALUE not in (ka, ga) and abs(_f(ga)) < 705:
                 ctx.close('H5', math.log(_f(ka)), -_f(ga), 1e-9, dict(base, what='Keq_act'), scale=max(1.0, abs(_f(ga))))
     else:
         ctx.extra['H5_skipped_overflow'] = ctx.extra.get('H5_skipped_overflow', 0) + 1
+    # --- equilibrium constants next to the overflow edge of exp(): 690 < |dG/RT| < 707 (K ~ 1e+-305 is still a
+    #     finite, normal double); the temperature is chosen by bisection on the REFERENCE dG/RT
+    if spec.get('keq_edge'):
+        T_lo = 30.0 if all_statmech else RG.T_LO
+
+        def dG_ref(T_):
+            c_ = dict(cond, T=T_)
+            return (RG.state_sum(objs, spec['products'], 'get_GoRT', c_)[0]
+                    - RG.state_sum(objs, spec['reactants'], 'get_GoRT', c_)[0])
+        try:
+            lo, hi = T_lo, cond['T']
+            if lo < hi and abs(dG_ref(lo)) > 700 > abs(dG_ref(hi)):
+                for _ in range(60):
+                    mid = 0.5 * (lo + hi)
+                    if abs(dG_ref(mid)) > 700:
+                        lo = mid
+                    else:
+                        hi = mid
+                for T_e in (lo * (1 - 2e-3), lo * (1 - 6e-3), hi * (1 + 5e-3)):
+                    want = dG_ref(T_e)
+                    if not 660 < abs(want) < 707:
+                        continue
+                    c_e = dict(cond, T=T_e)
+                    for rev in (False, True):
+                        k = ctx.call('H5', dict(base, what='Keq_edge', rev=rev), rxn.get_Keq, rev=rev, **c_e)
+                        if k is core.NOVALUE:
+                            continue
+                        w = -want if not rev else want
+                        ctx.cls('keq:edge_window' + (':>700' if abs(want) > 700 else ''))
+                        ctx.close('H5', math.log(_f(k)) if _f(k) > 0 else float('nan'), w, 1e-9,
+                                  dict(base, what='Keq=exp(-dG)', rev=rev, window='|dG/RT| 660-707'),
+                                  scale=max(1.0, abs(want)), T=T_e)
+        except Exception as e:
+            ctx.inconc('H5', 'reference raised near the exp() edge', exc=repr(e)[:200])
     # --- H6: a block for one species moves only that species' term
     names = sorted(set(RG.shown(n) for side in sides.values() for n, _ in side))
     tgt = names[(ctx.case_index or 0) % len(names)]
